@@ -131,7 +131,9 @@ _add(_c("env_sepmult", "LSN", [3, 3], [3, 4, 3], 1, "lsn", dict(orthogonal=True,
 _add(_c("env_lim", "LIM", [3], [8], 1, None, dict(orthogonal=True)))
 # separatrix closed inside the wall: before the fix 07c1bc8 findLegs looped forever (a hang); must end in an explicit error
 _add(_c("env_closed_sep", "LSN", [2, 2], [3, 4, 3], 1, "closed", dict(orthogonal=True), fpol="quad"))
-ENVELOPE_QUICK = ["env_ny1", "env_g4", "env_nfine5", "env_len_small", "env_nx1", "env_closed_sep"]
+# no toroidal field given (fpol1D = [], as the shipped tokamak_example.py does): Bt_axis is exactly zero and must still be in the file
+_add(_c("env_nofpol", "LSN", [2, 2], [3, 4, 3], 1, "lsn", dict(orthogonal=True)))
+ENVELOPE_QUICK = ["env_ny1", "env_g4", "env_nfine5", "env_len_small", "env_nx1", "env_closed_sep", "env_nofpol"]
 ENVELOPE = ENVELOPE_QUICK + ["env_sol_wide", "env_len_big", "env_core_deep", "env_cdn_second_inside", "env_nonorth_n50", "env_sepmult", "env_lim"]
 
 CORE_CAMPAIGN = ["lsn_orth", "usn_orth", "lsn_orth_rev", "lsn_nonorth", "lsn_nonorth_rev", "cdn_orth", "ldn_orth",
